@@ -154,6 +154,59 @@ func trunc(s string, n int) string {
 	return s
 }
 
+// attest: a listed prover asks for an attestation form, named providers sign; the deadline of that prover may be
+// refreshed only at the step at which the number of distinct named signers reaches AttestMinToPass.
+func (w *c01World) requestAttest(p chain.Account, f *sFile) (string, string) {
+	before := w.state()
+	res := w.f.Exec(storagetypes.NewMsgRequestAttestationForm(p.Bech, f.Merkle, f.Owner, f.Start))
+	w.logf("request attestation form by %s for %s -> %s", short(p.Bech), f.id(), res)
+	for k, b := range before {
+		if a := w.state()[k]; a != b {
+			return "C01/attest-request-changed-state", fmt.Sprintf("requesting a form changed prover state %+v -> %+v", b, a)
+		}
+	}
+	return "", ""
+}
+
+func (w *c01World) attest(signer, prover chain.Account, f *sFile) (string, string) {
+	before := w.state()
+	form, had := w.c.App.StorageKeeper.GetAttestationForm(w.f.Ctx, prover.Bech, f.Merkle, f.Owner, f.Start)
+	named, signed := false, map[string]bool{}
+	if had {
+		for _, a := range form.Attestations {
+			if a.Complete {
+				signed[a.Provider] = true
+			}
+			if a.Provider == signer.Bech {
+				named = true
+			}
+		}
+	}
+	if named {
+		signed[signer.Bech] = true
+	}
+	fire := had && named && int64(len(signed)) >= w.params().AttestMinToPass
+	res := w.f.Exec(storagetypes.NewMsgAttest(signer.Bech, prover.Bech, f.Merkle, f.Owner, f.Start))
+	w.logf("attest by %s about %s on %s (form=%v named=%v distinct signers=%d) -> %s", short(signer.Bech), short(prover.Bech), f.id(), had, named, len(signed), res)
+	after := w.state()
+	pk := pairKey(prover.Bech, f)
+	for k, b := range before {
+		a := after[k]
+		if a == b {
+			continue
+		}
+		if k == pk && fire && b.Listed && a.Listed && a.LastProven == w.f.Height() && a.Chunk == b.Chunk {
+			if p, ok := w.pairs[pk]; ok {
+				p.LastAccepted = w.f.Height()
+			}
+			w.classes["attest-refresh"]++
+			continue
+		}
+		return "C01/attestation-without-quorum", fmt.Sprintf("attest by %s (named=%v, distinct named signers %d, minimum %d) changed prover state of %s from %+v to %+v", short(signer.Bech), named, len(signed), w.params().AttestMinToPass, short(strings.SplitN(k, "|", 2)[0]), b, a)
+	}
+	return "", ""
+}
+
 // rewardOracle: whoever is paid must hold a model pair (i.e. has validly proven a file it is listed on).
 func (w *c01World) rewardOracle(pre, post *rewardSnap) (string, string) {
 	gauges := map[string]bool{}
@@ -303,7 +356,7 @@ func (w *c01World) honestSubmission(a chain.Account, f *sFile) (c01Submission, b
 func TestC01(t *testing.T) {
 	rec := ev.For("C01")
 	rec.Describe("stateful fork-mode histories (rapid state machine): chunk size in {1,2,3,16,1024}, 1-3 real files of 1..320 chunks (some >100 chunks), MaxProofs 1-4, 2-4 holders submitting the proof derived from the real tree and 1-3 dishonest accounts (with and without provider records) drawing from nine mutation classes: mutated item; genuine proof+data of another chunk; cross-index (proof of leaf j whose decimal index extends the challenged index by two digits, item = those digits as one byte || chunk j, the challenge being steered to 1..3 through the block-gas seed); truncated/extended/permuted/retargeted hash list and wrong Index; garbage JSON; stale or wrong ToProve; right proof addressed to another/unknown file; submission to a full file; plus block advance through reward blocks with funded gauges. Oracle: a reference verifier written from the property (leaf sha256(decimal(i)||hex(item)), path for position i, i = stored challenge, file open or already joined) decides validity of every submission; an invalid one must answer Success=false and change nothing for anybody; after every step list membership / LastProven / ChunkToProve of every (account,file) may differ only for the submitter of a valid accepted proof; at reward blocks every credited account must be listed on a file it has validly proven. Non-trivial = a rejected invalid submission by a non-listed account on a non-full file followed by a reward block that paid out; distinct = distinct traces.",
-		"attestation-based refresh is exercised by C14, not here",
+		"attestation refresh is modelled from the stored form's complete flags (C14 checks those flags against an independent model)",
 		"acceptance of valid proofs is not demanded here (C02 does that); a valid proof may fail without effect")
 	c := chain.New(chain.GenesisOpts{NumAccounts: 1, Balance: sdk.NewCoins(sdk.NewInt64Coin("ujkl", 3_000_000_000_000_000)),
 		Faucet: sdk.NewCoins(sdk.NewInt64Coin("ujkl", 1_000_000_000_000))})
@@ -366,6 +419,10 @@ func TestC01(t *testing.T) {
 		for i := 0; i < nD; i++ {
 			w.addAccount(20+i, false, rapid.Bool().Draw(rt, "dishonestRegistered"))
 		}
+		w.setParams(func(p *storagetypes.Params) {
+			p.AttestFormSize = rapid.Int64Range(1, 2).Draw(rt, "formSize")
+			p.AttestMinToPass = rapid.Int64Range(1, p.AttestFormSize).Draw(rt, "minToPass")
+		})
 		w.fundGauge(rapid.Int64Range(1_000_000, 1_000_000_000_000).Draw(rt, "gauge"))
 		post := func(rt *rapid.T) {
 			if len(w.files) >= 3 {
@@ -558,6 +615,42 @@ func TestC01(t *testing.T) {
 					s.Item, s.HashList = nil, nil
 				}
 				fail(w.submit(s))
+			},
+			"attestRequest": func(rt *rapid.T) {
+				if len(w.files) == 0 {
+					rt.Skip()
+				}
+				fail(w.requestAttest(w.accounts[rapid.IntRange(0, len(w.accounts)-1).Draw(rt, "requester")], drawFile(rt)))
+			},
+			"attest": func(rt *rapid.T) {
+				if len(w.files) == 0 {
+					rt.Skip()
+				}
+				forms := w.c.App.StorageKeeper.GetAllAttestation(w.f.Ctx)
+				signer := w.accounts[rapid.IntRange(0, len(w.accounts)-1).Draw(rt, "signer")]
+				prover, f := w.accounts[rapid.IntRange(0, len(w.accounts)-1).Draw(rt, "about")], drawFile(rt)
+				if len(forms) > 0 && rapid.IntRange(0, 9).Draw(rt, "openForm") < 8 {
+					fm := forms[rapid.IntRange(0, len(forms)-1).Draw(rt, "form")]
+					for _, a := range w.accounts {
+						if a.Bech == fm.Prover {
+							prover = a
+						}
+					}
+					for _, g := range w.files {
+						if string(g.Merkle) == string(fm.Merkle) && g.Owner == fm.Owner && g.Start == fm.Start {
+							f = g
+						}
+					}
+					if len(fm.Attestations) > 0 && rapid.IntRange(0, 9).Draw(rt, "namedSigner") < 7 {
+						nm := fm.Attestations[rapid.IntRange(0, len(fm.Attestations)-1).Draw(rt, "which")].Provider
+						for _, a := range w.accounts {
+							if a.Bech == nm {
+								signer = a
+							}
+						}
+					}
+				}
+				fail(w.attest(signer, prover, f))
 			},
 			"advance": func(rt *rapid.T) {
 				n := rapid.IntRange(1, 4).Draw(rt, "blocks")
